@@ -48,7 +48,9 @@ type reader struct {
 //
 // Sort order is determined using the following rules:
 //   - for sam.QueryName the LessByName sam.Record method is used.
-//   - for sam.Coordinate the LessByCoordinate sam.Record method is used.
+//   - for sam.Coordinate records are ordered by the position of their
+//     reference in the merged header, then by position, with unplaced
+//     records last.
 //   - for sam.Unsorted the reader streams are concatenated.
 //   - for sam.Unknown the provided less function is used - if nil
 //     this is the same as sam.Unsorted.
@@ -90,7 +92,7 @@ func NewMerger(less func(a, b *sam.Record) bool, src ...*Reader) (*Merger, error
 	case sam.QueryName:
 		m.less = (*sam.Record).LessByName
 	case sam.Coordinate:
-		m.less = (*sam.Record).LessByCoordinate
+		m.less = lessByCoordinate
 	}
 	for i, r := range src {
 		if m.less == nil {
@@ -100,6 +102,7 @@ func NewMerger(less func(a, b *sam.Record) bool, src ...*Reader) (*Merger, error
 			continue
 		}
 		rec, err := r.Read()
+		m.reassignReference(i, rec)
 		readers[i] = reader{id: i, r: r, head: rec, err: err}
 		m.readers[i] = &readers[i]
 	}
@@ -164,6 +167,7 @@ func (m *Merger) nextBySortOrder() (rec *sam.Record, err error) {
 	reader := m.pop()
 	rec, err = reader.head, reader.err
 	reader.head, reader.err = reader.r.Read()
+	m.reassignReference(reader.id, reader.head)
 	if reader.err == nil {
 		m.push(reader)
 	} else if reader.err != io.EOF && m.err == nil {
@@ -175,12 +179,29 @@ func (m *Merger) nextBySortOrder() (rec *sam.Record, err error) {
 	if err == io.EOF {
 		err = nil
 	}
-	m.reassignReference(reader.id, rec)
 	return rec, err
 }
 
+// lessByCoordinate returns whether a sorts before b by coordinate
+// according to the SAM specification: by the order of the references
+// in the header, then by position, with unplaced records last. Both
+// records must be linked to the same header, which for the heads of
+// the sources is the merged header.
+func lessByCoordinate(a, b *sam.Record) bool {
+	aID, bID := a.RefID(), b.RefID()
+	switch {
+	case aID < 0:
+		return false
+	case bID < 0:
+		return true
+	}
+	return aID < bID || (aID == bID && a.Pos < b.Pos)
+}
+
+// reassignReference links rec, read from the source id, to the
+// references of the merged header.
 func (m *Merger) reassignReference(id int, rec *sam.Record) {
-	if m.refLinks == nil {
+	if rec == nil || m.refLinks == nil {
 		return
 	}
 	if rec.Ref != nil {
